@@ -19,12 +19,16 @@ LEVEL = 'proof'
 
 logging.disable(logging.CRITICAL)
 
-MODS = ['Base.Bytes', 'Model.CodecsBase', 'Gen.C18Tables', 'Model.CodecsL2cap', 'Model.CodecsRfcomm', 'Model.CodecsSdp', 'Model.CodecsUuid', 'Model.CodecsAv']
+MODS = ['Base.Bytes', 'Model.SpecCodec', 'Model.CodecsRegistry', 'Gen.C18Registry', 'Model.CodecsBase', 'Gen.C18Tables', 'Model.CodecsL2cap', 'Model.CodecsRfcomm', 'Model.CodecsSdp', 'Model.CodecsUuid', 'Model.CodecsAv']
 
 
 def regen(ctx):
-    from translate import c18_tables
+    from translate import c18_tables, c18_registries
     ctx.write_gen('C18Tables', c18_tables.generate())
+    text, translated, untranslated = c18_registries.translate()
+    ctx.write_gen('C18Registry', text)
+    ctx.extra['registry_translated'] = len(translated)
+    ctx.extra['registry_untranslated'] = untranslated
 
 
 # ----------------------------------------------------------------------------- helpers
@@ -99,7 +103,7 @@ def norm(v):
         return v
     if isinstance(v, int):
         return int(v)
-    if v == 'None':
+    if isinstance(v, str) and v == 'None':
         return None
     return v
 
@@ -121,6 +125,7 @@ class Batch:
     def __init__(self, ctx):
         self.ctx = ctx
         self.items = []
+        self.preamble = []
 
     def add(self, expr, expect, what, case, extra=None):
         self.items.append((expr, expect, what, case, extra))
@@ -128,7 +133,7 @@ class Batch:
     def run(self):
         if not self.items:
             return
-        vals = self.ctx.coq_eval(MODS, [it[0] for it in self.items])
+        vals = self.ctx.coq_eval(MODS, [it[0] for it in self.items], preamble='\n'.join(self.preamble))
         for (expr, expect, what, case, extra), v in zip(self.items, vals):
             m = norm(v)
             if expect is not SKIP and m != norm(expect):
@@ -139,6 +144,20 @@ class Batch:
 
 
 SKIP = object()
+
+
+class _Any:
+    def __eq__(self, other):
+        return True
+
+    def __ne__(self, other):
+        return False
+
+    def __repr__(self):
+        return '_'
+
+
+SKIPV = _Any()
 
 
 def attempt(f, *a, **k):
@@ -232,7 +251,7 @@ def sec_ertm(ctx, B):
               (list(b), some(ecf_obs(p)) if ok else None), 'ERTM control field value', {'frame': kind, 'fields': list(v)})
     # received octets: first octets x boundary second octets, random pairs, short input
     ds = [bytes([a, b]) for a in range(256) for b in (0, 0x3F, 0x40, 0x7F, 0x80, 0xFF)]
-    ds = rng.shuffle(ds)[:ctx.n(200, 1536)]
+    ds = rng.shuffle(ds)[:ctx.n(120, 1536)]
     ds += [b'', b'\x00', b'\x01', b'\x11\x05\xaa']
     ds += [rng.bytes(2) + rng.bytes(rng.below(3)) for _ in range(ctx.n(60, 1500))]
     for d in ds:
@@ -462,7 +481,7 @@ def sec_rfcomm(ctx, B):
             if m[0] != norm(expect):
                 ctx.disagree('RFCOMM_Frame.from_bytes', {'data': d[:12].hex(), 'len': len(d)}, repr(m[0])[:400], repr(norm(expect))[:400])
             # the model's own canonical-form predicate must imply byte identity on the implementation
-            if m[1] is True and (not ok or bytes(p) != d):
+            if m[1] is True and m[0] is not None and (not ok or bytes(p) != d):
                 ctx.disagree('frame_canonical but not byte-identical', {'data': d[:12].hex(), 'len': len(d)}, True, False)
         B.add('(' + FRAME_OBS.format(f'frame_parse {cb(d)}') + f', frame_canonical {cb(d)})',
               SKIP, 'RFCOMM_Frame.from_bytes', {'data': d[:12].hex(), 'len': len(d)}, extra=extra)
@@ -842,7 +861,7 @@ def sec_sdp(ctx, B):
         for i in range(d):
             t = ('seq' if i % 3 else 'alt', [t]) if i % 2 else ('seq', [t, ('nil',)])
         trees.append(t)
-    for _ in range(ctx.n(150, 4000)):
+    for _ in range(ctx.n(110, 4000)):
         trees.append(sdp_gen_tree(rng, rng.choice([1, 2, 2, 3, 4]), big=rng.chance(1, 6)))
     for tree in trees:
         e = sdp_build(tree)
@@ -874,7 +893,7 @@ def sec_sdp(ctx, B):
         if _tree_depth(tree) > maxd:
             continue
         rx.append((sdp_spec_encode(tree) + rng.bytes(rng.choice([0, 0, 1, 3])), True))
-    for _ in range(ctx.n(150, 4000)):
+    for _ in range(ctx.n(100, 4000)):
         tree = sdp_gen_tree(rng, 2)
         d = bytearray(sdp_spec_encode(tree))
         kind = rng.below(8)
@@ -905,9 +924,6 @@ def sec_sdp(ctx, B):
             continue
         except Exception as ex:  # noqa: BLE001
             ok, p = False, type(ex).__name__
-        if ok and _has_url_roundtrip_issue(p):
-            ctx.count('sdp.bytes.url-not-utf8')
-            continue
         ctx.case(('sdp-rx', d), ok)
         ctx.count('sdp.bytes.' + ('accepted' if ok else 'rejected') + ('.spec-form' if spec_form else ''))
         expect = SKIP
@@ -937,10 +953,6 @@ def sec_sdp(ctx, B):
         B.add(f'presult_sig (from_bytes sdp_max_nesting {cb(d)})', SKIP, 'SDP parse', {'data': d[:40].hex()}, extra=extra)
 
 
-def _has_url_roundtrip_issue(e):
-    return False
-
-
 def _tree_depth(t):
     if t[0] in ('seq', 'alt'):
         return 1 + max([_tree_depth(x) for x in t[1]] + [0])
@@ -967,10 +979,992 @@ def _tree_unjson(j):
         return (j[0], bytes.fromhex(j[1]))
     return tuple(j)
 
+
+# ----------------------------------------------------------------------------- UUID (registry as state) and Address
+def uuid_history_oracle(ops):
+    """Run a history of registry-touching operations on the real class, then check for every
+    operation: the returned UUID has exactly the bytes it was created from, and equals (==) a
+    fresh UUID of those bytes.  ops: ['b', hex] from_bytes, ['16', v], ['32', v], ['s', str] UUID(str)
+    (no registration), ['p', hex] parse_uuid at offset 0, ['p2', hex] parse_uuid_2.
+    Returns (per-op result bytes or None, violation or None)."""
+    from bumble import core
+    U = core.UUID
+    out = []
+    bad = None
+    for i, o in enumerate(ops):
+        k = o[0]
+        try:
+            if k == 'b':
+                want = bytes.fromhex(o[1])
+                u = U.from_bytes(want)
+            elif k == '16':
+                want = struct.pack('<H', o[1])
+                u = U.from_16_bits(o[1])
+            elif k == '32':
+                want = struct.pack('<I', o[1])
+                u = U.from_32_bits(o[1])
+            elif k == 'p':
+                want = bytes.fromhex(o[1])
+                u = U.parse_uuid(want, 0)[1]
+            elif k == 'p2':
+                want = bytes.fromhex(o[1])[:2]
+                u = U.parse_uuid_2(bytes.fromhex(o[1]), 0)[1]
+            else:
+                u = U(o[1])
+                want = bytes(u)
+            got = bytes(u)
+            out.append(got)
+            if bad is None and got != want:
+                bad = (f'core:UUID:width{len(want) * 8}-as-{len(got) * 8}',
+                       f'operation {i} {o}: asked for the {len(want)}-octet UUID {want.hex()}, got an object of {len(got)} octets ({got.hex()})')
+            elif bad is None and k != 's':
+                fresh = U.__new__(U)
+                fresh.uuid_bytes = want
+                fresh.name = None
+                if not (u == fresh):
+                    bad = ('core:UUID:eq', f'operation {i} {o}: result {got.hex()} is not equal to the UUID asked for')
+        except Exception as e:  # noqa: BLE001
+            out.append(None)
+            if k in ('b', 'p') and len(bytes.fromhex(o[1])) in (2, 4, 16) and bad is None:
+                bad = ('core:UUID:raise', f'operation {i} {o} raised {type(e).__name__}')
+    return out, bad
+
+
+def sec_uuid(ctx, B):
+    from bumble import core
+    rng = ctx.rng.fork('uuid')
+    U = core.UUID
+    base = bytes(U.BASE_UUID)
+
+    def form128(v, n):
+        return base + (struct.pack('<H', v) + b'\0\0' if n == 2 else struct.pack('<I', v))
+    known16 = [0x1800, 0x1801, 0x2800, 0x2803, 0x2902, 0x0001, 0x0003, 0x0100, 0x1101, 0x110A]
+    # the registry as it is when this section starts (everything imported, parsed and
+    # constructed so far in this process), defined once for the model
+    base_reg = [bytes(u.uuid_bytes) for u in U.UUIDS]
+    B.preamble.append('Definition c18_reg0 : list (list Z) := [' + '; '.join(cb(b) for b in base_reg) + '].')
+    for hnum in range(ctx.n(45, 1500)):
+        ops = []
+        vals16 = [rng.choice(known16 + [rng.below(65536)]) for _ in range(3)]
+        vals32 = [rng.choice([0x12345678, rng.below(2 ** 32), vals16[0]]) for _ in range(2)]
+        for _ in range(rng.choice([1, 2, 3, 5, 8])):
+            r = rng.below(10)
+            v = rng.choice(vals16)
+            w = rng.choice(vals32)
+            if r == 0:
+                ops.append(['16', v])
+            elif r == 1:
+                ops.append(['32', w])
+            elif r == 2:
+                ops.append(['b', form128(v, 2).hex()])
+            elif r == 3:
+                ops.append(['b', form128(w, 4).hex()])
+            elif r == 4:
+                ops.append(['b', struct.pack('<H', v).hex()])
+            elif r == 5:
+                ops.append(['b', rng.bytes(rng.choice([16, 16, 4, 2])).hex()])
+            elif r == 6:
+                ops.append(['s', f'{v:04X}'])
+            elif r == 7:
+                ops.append(['p', rng.choice([form128(v, 2), struct.pack('<H', v), struct.pack('<I', w)]).hex()])
+            elif r == 8:
+                ops.append(['p2', (struct.pack('<H', v) + rng.bytes(rng.below(3))).hex()])
+            else:
+                ops.append(['b', rng.bytes(rng.choice([0, 1, 3, 5, 8, 15, 17])).hex()])
+        n0 = len(U.UUIDS)
+        reg0 = [bytes(u.uuid_bytes) for u in U.UUIDS]
+        got, bad = uuid_history_oracle(ops)
+        added = [bytes(u.uuid_bytes) for u in U.UUIDS[n0:]]
+        ctx.case(('uuid', tuple(map(tuple, ops)), len(reg0)), any(o[0] == 'b' and len(o[1]) == 32 for o in ops),
+                 {'codec': 'UUID with registry', 'history': ops, 'registry_size_before': n0} if len(ctx.samples) < 5 and len(ops) > 2 else None)
+        ctx.count('uuid.histories')
+        ctx.count('uuid.ops', len(ops))
+        if bad:
+            ctx.violation(bad[0], bad[1], {'kind': 'uuid-history', 'ops': ops, 'preregistered': [b.hex() for b in reg0 if len(b) <= 4][:0]})
+        # the model: only the registry-touching operations, on the registry as it was
+        mops = []
+        expect = []
+        for o, g in zip(ops, got):
+            if o[0] == 's':
+                continue
+            if o[0] == 'b' or o[0] == 'p':
+                mops.append(f'UFromBytes {cb(bytes.fromhex(o[1]))}')
+            elif o[0] == 'p2':
+                mops.append(f'UFromBytes {cb(bytes.fromhex(o[1])[:2])}')
+            elif o[0] == '16':
+                mops.append(f'UFrom16 {o[1]}')
+            else:
+                mops.append(f'UFrom32 {o[1]}')
+            expect.append(some(list(g)) if g is not None else None)
+        assert reg0[:len(base_reg)] == base_reg
+        regterm = '(c18_reg0 ++ [' + '; '.join(cb(b) for b in reg0[len(base_reg):]) + '])'
+        B.add(f'let r := uuid_trace {regterm} [' + '; '.join(mops) + f'] in (fst r, skipn {len(reg0)} (snd r))',
+              (expect, [list(b) for b in added]), 'UUID registry history', {'ops': ops})
+    # value-level checks that do not depend on the registry: 128-bit expansion and the ATT form
+    for _ in range(ctx.n(40, 600)):
+        b = rng.bytes(rng.choice([2, 4, 16]))
+        u = U.from_bytes(b)
+        ctx.case(('uuid-forms', b), True)
+        ctx.count('uuid.forms')
+        B.add(f'(uuid_128 {cb(b)}, uuid_to_pdu_bytes {cb(b)}, uuid_eq (uuid_to_pdu_bytes {cb(b)}) {cb(b)})',
+              (list(u.to_bytes(force_128=True)), list(u.to_pdu_bytes()), U.from_bytes(u.to_pdu_bytes()) == u),
+              'UUID 128-bit / PDU forms', {'uuid': b.hex()})
+        if len(bytes(u)) == len(b) and not (U.from_bytes(u.to_pdu_bytes()) == u):
+            ctx.violation('core:UUID:pdu-form', f'UUID {b.hex()} sent in its ATT form does not compare equal', {'kind': 'uuid-pdu', 'uuid': b.hex()})
+
+
+ADDR_TYPES = [0, 1, 2, 3, 0xFE, 0xFF]
+
+
+def sec_address(ctx, B):
+    from bumble import hci
+    rng = ctx.rng.fork('address')
+    A = hci.Address
+    for _ in range(ctx.n(80, 1500)):
+        b = rng.choice([bytes(6), b'\xff' * 6, bytes([1, 2, 3, 4, 5, 6]), rng.bytes(6), rng.bytes(6)])
+        t = rng.choice(ADDR_TYPES)
+        a = A(b, hci.AddressType(t))
+        tail = rng.bytes(rng.below(3))
+        # bytes form through the three parsers
+        for pname, ptype in (('parse_address', 0), ('parse_random_address', 1)):
+            off, p = getattr(A, pname)(bytes(a) + tail, 0)
+            if bytes(p) != b or off != 6 or (p == a) != (a.is_public == (ptype == 0)):
+                ctx.violation(f'hci:Address:{pname}', f'{b.hex()}/{t} through {pname} gives {bytes(p).hex()} type {int(p.address_type)}',
+                              {'kind': 'address', 'bytes': b.hex(), 'type': t})
+        off, p = A.parse_address_preceded_by_type(bytes([t]) + bytes(a) + tail, 1)
+        if bytes(p) != b or int(p.address_type) != t or not (p == a):
+            ctx.violation('hci:Address:parse_address_preceded_by_type', f'{b.hex()}/{t} parses back as {bytes(p).hex()}/{int(p.address_type)}',
+                          {'kind': 'address', 'bytes': b.hex(), 'type': t})
+        # string form
+        s_ = a.to_string()
+        ok, q = attempt(A, s_)
+        if not ok or not (q == a) or bytes(q) != b:
+            ctx.violation('hci:Address:string', f'{b.hex()}/{t} -> {s_!r} -> {q}', {'kind': 'address', 'bytes': b.hex(), 'type': t})
+        ctx.case(('addr', b, t), True, {'codec': 'Address', 'bytes': b.hex(), 'type': t, 'string': s_} if len(ctx.samples) < 6 and t == 0 else None)
+        ctx.count('address.value')
+        B.add(f'(addr_parse {t} ({cb(b)} ++ {cb(tail)}), addr_to_string ({cb(b)}, {t}), addr_from_string (addr_to_string ({cb(b)}, {t})) 1)',
+              (some(((list(b), t), list(tail))), [ord(c) for c in s_],
+               some((list(bytes(q)), int(q.address_type))) if ok else None), 'Address bytes / string forms', {'bytes': b.hex(), 'type': t})
+    # strings: accepted forms and rejects
+    strs = ['00:11:22:33:44:55', 'aa:bb:cc:dd:ee:ff', 'AABBCCDDEEFF', 'AA:BB:CC:DD:EE:FF/P', 'aabbccddeeff/P', '', 'P', '/P',
+            '00:11:22:33:44', '00:11:22:33:44:5G', '0:11:22:33:44:555', '001122334455667', '00:11:22:33:44:55:66', '00-11-22-33-44-55']
+    hexd = '0123456789abcdefABCDEF'
+    for _ in range(ctx.n(40, 800)):
+        n = rng.choice([12, 12, 17, 17, 11, 13, 16, 18])
+        if n == 17:
+            s_ = ':'.join(rng.choice(hexd) + rng.choice(hexd) for _ in range(6))
+        else:
+            s_ = ''.join(rng.choice(hexd) for _ in range(n))
+        if rng.chance(1, 4):
+            s_ += '/P'
+        if rng.chance(1, 8) and s_:
+            i = rng.below(len(s_))
+            s_ = s_[:i] + rng.choice([':', 'g', 'P', '/']) + s_[i + 1:]
+        strs.append(s_)
+    for s_ in strs:
+        ok, q = attempt(A, s_)
+        ctx.case(('addr-str', s_), ok)
+        ctx.count('address.string.' + ('accepted' if ok else 'rejected'))
+        if ok and not (A(q.to_string()) == q):
+            ctx.violation('hci:Address:string', f'{s_!r} parses to {q!r} whose string form does not parse back equal',
+                          {'kind': 'address-string', 'string': s_})
+        B.add(f'addr_from_string {cb(s_.encode())} 1', some((list(bytes(q)), int(q.address_type))) if ok else None,
+              'Address(string)', {'string': s_})
+    for _ in range(ctx.n(20, 300)):
+        d = rng.bytes(rng.choice([0, 5, 6, 7, 9]))
+        ok, r = attempt(A.parse_address, d, 0)
+        ctx.case(('addr-rx', d), ok)
+        ctx.count('address.bytes')
+        B.add(f'addr_parse 0 {cb(d)}', some(((list(bytes(r[1])), int(r[1].address_type)), list(d[r[0]:]))) if ok else None,
+              'Address.parse_address', {'data': d.hex()})
+
+
+# ----------------------------------------------------------------------------- advertising data
+def sec_adv(ctx, B):
+    from bumble import core
+    rng = ctx.rng.fork('adv')
+    AD = core.AdvertisingData
+    for _ in range(ctx.n(80, 2000)):
+        items = []
+        for _ in range(rng.choice([0, 1, 1, 2, 3, 6])):
+            items.append((rng.choice([0x01, 0x02, 0x03, 0x08, 0x09, 0x16, 0xFF, 0x00, rng.below(256)]),
+                          fill(rng, rng.choice([0, 1, 2, 3, 16, 29, 253, 254, 255 if rng.chance(1, 6) else 7]))))
+        ok, b = attempt(lambda: bytes(AD(items)))
+        expect = None
+        if ok:
+            p = AD.from_bytes(b)
+            got = [(int(t), bytes(v)) for t, v in p.ad_structures]
+            expect = some((dg(b), [(t, dg(v)) for t, v in got]))
+            if got != [(t, bytes(v)) for t, v in items]:
+                i = next((k for k, (x, y) in enumerate(zip(got, items)) if x != (y[0], bytes(y[1]))), min(len(got), len(items)))
+                ln = len(items[i][1]) if i < len(items) else -1
+                ctx.violation(f'core:AdvertisingData:len{ln}', f'structures {[(t, len(v)) for t, v in items]} parse back as {[(t, len(v)) for t, v in got]}',
+                              {'kind': 'adv', 'items': [[t, v.hex()] for t, v in items]})
+            elif bytes(p) != b:
+                ctx.violation('core:AdvertisingData:bytes', 'parsed advertising data re-serialises differently',
+                              {'kind': 'adv', 'items': [[t, v.hex()] for t, v in items]})
+        ctx.case(('adv', [(t, bytes(v)) for t, v in items]), len(items) > 1,
+                 {'codec': 'AdvertisingData', 'structures': [[t, len(v)] for t, v in items]} if len(ctx.samples) < 7 and len(items) > 1 else None)
+        ctx.count('adv.value')
+        term = '[' + '; '.join(f'({t}, {cb(v)})' for t, v in items) + ']'
+        B.add(f'match ad_bytes {term} with Some b => match ad_parse_all b with Some l => '
+              f'Some (dg b, map (fun o => (fst o, dg (snd o))) l) | None => None end | None => None end',
+              expect, 'AdvertisingData value', {'items': [[t, len(v)] for t, v in items]})
+    for _ in range(ctx.n(80, 2000)):
+        kind = rng.below(4)
+        if kind == 0:
+            d = rng.bytes(rng.choice([0, 1, 2, 3, 5, 9, 31]))
+        else:
+            d = b''
+            for _ in range(rng.choice([1, 2, 3])):
+                v = rng.bytes(rng.choice([0, 1, 4, 9]))
+                d += bytes([len(v) + 1, rng.below(256)]) + v
+            if kind == 2:
+                d += bytes(rng.choice([1, 2, 5]))          # zero padding (early termination)
+            if kind == 3:
+                d = d[:rng.below(len(d) + 1)]
+        p = AD.from_bytes(d)
+        got = [(int(t), list(v)) for t, v in p.ad_structures]
+        ctx.case(('adv-rx', d), len(got) > 0)
+        ctx.count('adv.bytes')
+        if kind == 1 and bytes(p) != d:
+            ctx.violation('core:AdvertisingData:bytes', f'well-formed advertising data {d.hex()} re-serialises as {bytes(p).hex()}',
+                          {'kind': 'adv-rx', 'data': d.hex()})
+        B.add(f'(ad_parse_all {cb(d)}, ad_exact_all {cb(d)})', (some(got), SKIPV), 'AdvertisingData.from_bytes', {'data': d.hex()},
+              extra=lambda m, p=p, d=d: (ctx.disagree('ad_exact but not byte-identical', {'data': d.hex()}, True, False)
+                                         if m[-1] is True and bytes(p) != d else None))
+
+
+# ----------------------------------------------------------------------------- AVDTP / AVCTP / RTP
+class _Chan:
+    """stands in for the L2CAP channel under Protocol.send_message: records what is written"""
+
+    def __init__(self, mtu):
+        self.peer_mtu = mtu
+        self.written = []
+
+    def write(self, pdu):
+        self.written.append(bytes(pdu))
+
+
+def avdtp_send(tl, message, mtu):
+    """the real avdtp.Protocol.send_message on a stand-in channel -> list of PDUs"""
+    from bumble import avdtp
+    chan = _Chan(mtu)
+    stub = types.SimpleNamespace(l2cap_channel=chan, PacketType=avdtp.Protocol.PacketType)
+    avdtp.Protocol.send_message(stub, tl, message)
+    return chan.written
+
+
+def avdtp_receive(pdus):
+    """the real avdtp.MessageAssembler -> list of (transaction_label, message)"""
+    from bumble import avdtp
+    got = []
+    asm = avdtp.MessageAssembler(lambda tl, m: got.append((tl, m)))
+    for p in pdus:
+        asm.on_pdu(p)
+    return got
+
+
+def sec_av(ctx, B):
+    from bumble import avdtp, avctp, rtp
+    rng = ctx.rng.fork('av')
+    # ---- AVDTP signalling header (generic Message with a raw payload: the header is what is tested)
+    for _ in range(ctx.n(80, 1500)):
+        tl = rng.below(16)
+        mt = rng.choice([0, 1, 2])        # RESPONSE_REJECT without a registered class parses as Simple_Reject
+        sig = rng.choice([0x00, 0x0E, 0x0F, 0x20, 0x3F, rng.below(64)])
+        payload = fill(rng, rng.choice([0, 1, 2, 10, 45, 46, 47, 100]))
+        msg = avdtp.Message()
+        msg.message_type = avdtp.Message.MessageType(mt)
+        msg.signal_identifier = avdtp.SignalIdentifier(sig)
+        msg.payload = payload
+        if sig in avdtp.Message.subclasses and mt in avdtp.Message.subclasses[sig]:
+            continue                       # registered classes are exercised by sec_registries
+        mtu = rng.choice([48, 48, 672, 1000])
+        pdus = avdtp_send(tl, msg, mtu)
+        got = avdtp_receive(pdus)
+        single = len(payload) + 2 <= mtu
+        ctx.case(('avdtp-hdr', tl, mt, sig, len(payload), mtu), True)
+        ctx.count('avdtp.header.' + ('single' if single else 'fragmented'))
+        if len(got) != 1 or got[0][0] != tl or int(got[0][1].message_type) != mt or int(got[0][1].signal_identifier) != sig \
+                or bytes(got[0][1].payload) != payload:
+            ctx.violation(f'avdtp:Message:header:{"single" if single else "fragmented"}',
+                          f'tl={tl} type={mt} signal={sig} payload {len(payload)} octets over mtu {mtu}: received {[(t, int(m.message_type), int(m.signal_identifier), len(m.payload)) for t, m in got]}',
+                          {'kind': 'avdtp-header', 'tl': tl, 'mt': mt, 'sig': sig, 'payload': payload.hex(), 'mtu': mtu})
+        first = pdus[0]
+        if single:
+            B.add(f'(avdtp_single_bytes {tl} {mt} {sig} {cb(payload)}, avdtp_header_parse {cb(first)})',
+                  (list(first), some(([tl, 0, mt, sig], list(payload)))), 'AVDTP single-packet header', {'tl': tl, 'mt': mt, 'sig': sig})
+        else:
+            count = first[2]
+            frag = first[3:]
+            B.add(f'(avdtp_start_bytes {tl} {mt} {sig} {count} {cb(frag)}, avdtp_header_parse {cb(first)})',
+                  (list(first), some(([tl, 1, mt, sig, count], list(frag)))), 'AVDTP start-packet header', {'tl': tl, 'mt': mt, 'sig': sig})
+    for _ in range(ctx.n(40, 800)):
+        d = rng.bytes(rng.choice([0, 1, 2, 3, 4, 8]))
+        if d and rng.chance(2, 3):
+            d = bytes([d[0] & 0xF3]) + d[1:]      # single packet
+        okr, got = attempt(avdtp_receive, [d])
+        if not okr:
+            # Message.create on a malformed payload raised (e.g. an empty RESPONSE_REJECT): the
+            # header was read; hostile payloads are property C17's subject
+            ctx.count('avdtp.header.bytes.payload-raises')
+            continue
+        ctx.case(('avdtp-rx', d), len(got) > 0)
+        ctx.count('avdtp.header.bytes')
+        pt = (d[0] >> 2) & 3 if d else None
+
+        def extra(m, d=d, got=got, pt=pt):
+            # model: header fields; implementation: a message is delivered exactly for single packets
+            if pt == 0 and len(d) >= 2:
+                want = some(([d[0] >> 4, 0, d[0] & 3, d[1] & 0x3F], list(d[2:])))
+                if m != norm(want):
+                    ctx.disagree('avdtp_header_parse', {'data': d.hex()}, repr(m), repr(norm(want)))
+                if len(got) != 1 or got[0][0] != d[0] >> 4 or int(got[0][1].signal_identifier) != d[1] & 0x3F:
+                    ctx.disagree('AVDTP assembler on a single packet', {'data': d.hex()}, repr(m), repr(got))
+            elif (pt == 0 and len(d) < 2) or not d:
+                if m is not None or got:
+                    ctx.disagree('AVDTP short packet', {'data': d.hex()}, repr(m), repr(got))
+        B.add(f'avdtp_header_parse {cb(d)}', SKIP, 'AVDTP header bytes', {'data': d.hex()}, extra=extra)
+    # ---- EndPointInfo
+    EP = avdtp.EndPointInfo
+    for seid in (0, 1, 31, 62, 63):
+        for in_use in (0, 1):
+            for mt in (0, 1, 2, 3, 15):
+                for tsep in (0, 1):
+                    p = [seid, in_use, mt, tsep]
+                    obj = EP(seid, in_use, avdtp.MediaType(mt), avdtp.StreamEndPointType(tsep))
+                    b = bytes(obj)
+                    q = EP.from_bytes(b)
+                    got = [q.seid, q.in_use, int(q.media_type), int(q.tsep)]
+                    ctx.case(('epi', tuple(p)), True)
+                    ctx.count('avdtp.endpoint.value')
+                    if got != p or not (q == obj):
+                        ctx.violation('avdtp:EndPointInfo:' + ','.join(n for n, g, w in zip(['seid', 'in_use', 'media_type', 'tsep'], got, p) if g != w),
+                                      f'EndPointInfo{tuple(p)} parses back as {got}', {'kind': 'epi', 'fields': p})
+                    B.add(f'(epi_bytes {cb(p)}, epi_parse (epi_bytes {cb(p)}))', (list(b), some(got)), 'EndPointInfo', {'fields': p})
+    for _ in range(ctx.n(40, 600)):
+        d = rng.bytes(rng.choice([2, 2, 3, 1]))
+        ok, q = attempt(EP.from_bytes, d)
+        expect = some(([q.seid, q.in_use, int(q.media_type), int(q.tsep)], list(bytes(q)))) if ok else None
+        if ok and len(d) == 2 and not d[0] & 1 and not d[1] & 7 and bytes(q) != d:
+            ctx.violation('avdtp:EndPointInfo:bytes', f'{d.hex()} re-serialises as {bytes(q).hex()}', {'kind': 'epi-rx', 'data': d.hex()})
+        ctx.case(('epi-rx', d), ok)
+        ctx.count('avdtp.endpoint.bytes')
+        B.add(f'match epi_parse {cb(d)} with Some p => Some (p, epi_bytes p) | None => None end', expect, 'EndPointInfo.from_bytes', {'data': d.hex()})
+    # ---- service capabilities (strict TLV); the media codec category builds a2dp objects and is
+    # exercised with well-formed codec information by sec_registries
+    SC = avdtp.ServiceCapabilities
+    for _ in range(ctx.n(60, 1000)):
+        caps = []
+        for _ in range(rng.choice([0, 1, 2, 3, 5])):
+            caps.append((rng.choice([1, 2, 3, 4, 5, 6, 8, 9, 0, 255]), fill(rng, rng.choice([0, 0, 1, 2, 6, 255, 256 if rng.chance(1, 8) else 3]))))
+        objs = [SC(c, v) for c, v in caps]
+        ok, b = attempt(SC.serialize_capabilities, objs)
+        expect = None
+        if ok:
+            dec = SC.parse_capabilities(b)
+            got = [(int(x.service_category), bytes(x.service_capabilities_bytes)) for x in dec]
+            expect = some((dg(b), [(c, dg(v)) for c, v in got]))
+            if got != [(c, bytes(v)) for c, v in caps] or dec != objs:
+                ctx.violation('avdtp:ServiceCapabilities:length', f'capabilities {[(c, len(v)) for c, v in caps]} parse back as {[(c, len(v)) for c, v in got]}',
+                              {'kind': 'caps', 'caps': [[c, v.hex()] for c, v in caps]})
+            elif SC.serialize_capabilities(dec) != b:
+                ctx.violation('avdtp:ServiceCapabilities:bytes', 'parsed capabilities re-serialise differently',
+                              {'kind': 'caps', 'caps': [[c, v.hex()] for c, v in caps]})
+        ctx.case(('caps', [(c, bytes(v)) for c, v in caps]), len(caps) > 0)
+        ctx.count('avdtp.capabilities.value')
+        term = '[' + '; '.join(f'({c}, {cb(v)})' for c, v in caps) + ']'
+        B.add(f'match tlv_encode {term} with Some b => match tlv_decode_all true b with '
+              f'Some l => Some (dg b, map (fun o => (fst o, dg (snd o))) l) | None => None end | None => None end',
+              expect, 'ServiceCapabilities', {'caps': [[c, len(v)] for c, v in caps]})
+    for _ in range(ctx.n(40, 800)):
+        d = b''
+        for _ in range(rng.choice([0, 1, 2, 3])):
+            v = rng.bytes(rng.choice([0, 1, 4]))
+            d += bytes([rng.choice([1, 2, 3, 4, 5, 6, 8, 9]), len(v)]) + v
+        kind = rng.below(4)
+        if kind == 0 and d:
+            d = d[:rng.below(len(d))]
+        if kind == 1:
+            d += bytes([rng.choice([1, 2, 8])])
+        ok, dec = attempt(SC.parse_capabilities, d)
+        ctx.case(('caps-rx', d), ok)
+        ctx.count('avdtp.capabilities.bytes')
+        if ok and kind >= 2 and SC.serialize_capabilities(dec) != d:
+            ctx.violation('avdtp:ServiceCapabilities:bytes', f'well-formed capabilities {d.hex()} re-serialise differently', {'kind': 'caps-rx', 'data': d.hex()})
+        B.add(f'tlv_decode_all true {cb(d)}',
+              some([(int(x.service_category), list(x.service_capabilities_bytes)) for x in dec]) if ok else None,
+              'ServiceCapabilities.parse_capabilities', {'data': d.hex()})
+    # ---- AVCTP single-packet header through the real Protocol.send_message / MessageAssembler
+    for _ in range(ctx.n(80, 1500)):
+        tl = rng.below(16)
+        is_cmd = rng.chance(1, 2)
+        ipid = rng.chance(1, 4)
+        pid = rng.choice([0x110E, 0x110C, 0, 0xFFFF, rng.below(65536)])
+        payload = fill(rng, rng.choice([0, 1, 2, 10, 100, 600]))
+        chan = _Chan(65535)
+        stub = types.SimpleNamespace(l2cap_channel=chan)
+        avctp.Protocol.send_message(stub, tl, is_cmd, ipid, pid, payload)
+        pdu = chan.written[0]
+        got = []
+        avctp.MessageAssembler(lambda *a: got.append(a)).on_pdu(pdu)
+        want = [(tl, is_cmd, ipid, pid, payload)]
+        ctx.case(('avctp', tl, is_cmd, ipid, pid, len(payload)), True)
+        ctx.count('avctp.header.value')
+        if is_cmd and ipid:
+            if got:
+                ctx.disagree('AVCTP: IPID in a command frame must be dropped', {'tl': tl}, None, repr(got))
+            expect = (some(dg(pdu)), some(None))
+        else:
+            if [(a, b_, c, d_, bytes(e)) for a, b_, c, d_, e in got] != want:
+                ctx.violation('avctp:header:' + ('command' if is_cmd else 'response') + (':ipid' if ipid else ''),
+                              f'tl={tl} is_command={is_cmd} ipid={ipid} pid={pid:#x} payload {len(payload)} octets delivered as {[(a, b_, c, d_, len(e)) for a, b_, c, d_, e in got]}',
+                              {'kind': 'avctp', 'tl': tl, 'cmd': is_cmd, 'ipid': ipid, 'pid': pid, 'payload': payload.hex()})
+            g = got[0] if got else None
+            expect = (some(dg(pdu)), some(some((g[0], g[1], g[2], g[3], dg(g[4])))) if g else SKIPV)
+        B.add(f'match avctp_bytes {tl} {cbool(is_cmd)} {cbool(ipid)} {pid} {cb(payload)} with Some b => '
+              f'(Some (dg b), match avctp_parse b with Some (Some (t, c, i, p, pl)) => Some (Some (t, c, i, p, dg pl)) '
+              f'| Some None => Some None | None => None end) | None => (None, None) end',
+              expect, 'AVCTP single-packet header', {'tl': tl, 'cmd': is_cmd, 'ipid': ipid, 'pid': pid})
+    # ---- RTP media packets
+    MP = rtp.MediaPacket
+    for _ in range(ctx.n(70, 2500)):
+        cc = rng.choice([0, 0, 1, 2, 3, 15])
+        f = dict(version=rng.choice([2, 2, 0, 3]), padding=rng.below(2), extension=rng.below(2), marker=rng.below(2),
+                 sequence_number=rng.choice([0, 1, 65535, rng.below(65536)]),
+                 timestamp=rng.choice([0, 1, 2 ** 32 - 1, rng.below(2 ** 32)]), ssrc=rng.choice([0, 2 ** 32 - 1, rng.below(2 ** 32)]),
+                 csrc_list=[rng.choice([0, 2 ** 32 - 1, rng.below(2 ** 32)]) for _ in range(cc)],
+                 payload_type=rng.choice([0, 96, 127, rng.below(128)]), payload=fill(rng, rng.choice([0, 1, 4, 100, 700])))
+        obj = MP(**f)
+        b = bytes(obj)
+        ok, q = attempt(MP.from_bytes, b)
+        names = ['version', 'padding', 'extension', 'marker', 'sequence_number', 'timestamp', 'ssrc', 'csrc_list', 'payload_type', 'payload']
+        ctx.case(('rtp', tuple((k, tuple(v) if isinstance(v, list) else v) for k, v in f.items())), cc > 0,
+                 {'codec': 'RTP MediaPacket', 'csrc_count': cc, 'payload_octets': len(f['payload'])} if len(ctx.samples) < 8 and cc > 1 else None)
+        ctx.count(f'rtp.value.csrc{min(cc, 3)}')
+        if not ok:
+            ctx.violation(f'rtp:MediaPacket:csrc{cc}', f'own bytes rejected: {q}', {'kind': 'rtp', 'fields': {**f, 'payload': f['payload'].hex()}})
+            continue
+        diff = [n for n in names if getattr(q, n) != f[n]]
+        if diff or bytes(q) != b:
+            ctx.violation(f'rtp:MediaPacket:{",".join(diff) or "bytes"}:csrc{cc}',
+                          f'packet with {cc} CSRC entries parses back with different {diff or "bytes"}: csrc {q.csrc_list} instead of {f["csrc_list"]}',
+                          {'kind': 'rtp', 'fields': {**f, 'payload': f['payload'].hex()}})
+        term = (f'{{| r_version := {f["version"]}; r_padding := {f["padding"]}; r_extension := {f["extension"]}; r_marker := {f["marker"]}; '
+                f'r_seq := {f["sequence_number"]}; r_ts := {f["timestamp"]}; r_ssrc := {f["ssrc"]}; '
+                f'r_csrc := [{"; ".join(map(str, f["csrc_list"]))}]; r_pt := {f["payload_type"]}; r_payload := {cb(f["payload"])} |}}')
+        B.add(f'let p := {term} in (dg (rtp_bytes p), match rtp_parse (rtp_bytes p) with Some q => '
+              f'Some (fst (fst (rtp_obs q)), snd (fst (rtp_obs q)), dg (r_payload q)) | None => None end)',
+              (dg(b), some(([q.version, q.padding, q.extension, q.marker, q.sequence_number, q.timestamp, q.ssrc, q.payload_type],
+                            list(q.csrc_list), dg(q.payload)))), 'RTP MediaPacket value', {'csrc': f['csrc_list']})
+    for _ in range(ctx.n(60, 1500)):
+        n = rng.choice([0, 5, 11, 12, 13, 16, 20, 24, 40])
+        d = bytearray(rng.bytes(n))
+        if n and rng.chance(3, 4):
+            d[0] = (d[0] & 0xF0) | rng.choice([0, 0, 1, 2, 3])
+        d = bytes(d)
+        ok, q = attempt(MP.from_bytes, d)
+        ctx.case(('rtp-rx', d), ok)
+        ctx.count('rtp.bytes.' + ('accepted' if ok else 'rejected'))
+        cc = d[0] & 15 if d else 0
+        if len(d) >= 12 + 4 * cc and (not ok or bytes(q) != d):
+            ctx.violation(f'rtp:MediaPacket:bytes:csrc{cc}', f'{d.hex()} ' + ('is rejected' if not ok else f're-serialises as {bytes(q).hex()}'),
+                          {'kind': 'rtp-rx', 'data': d.hex()})
+        expect = None
+        if ok:
+            expect = some(([q.version, q.padding, q.extension, q.marker, q.sequence_number, q.timestamp, q.ssrc, q.payload_type],
+                           list(q.csrc_list), list(q.payload), list(bytes(q))))
+        B.add(f'match rtp_parse {cb(d)} with Some q => Some (fst (fst (rtp_obs q)), snd (fst (rtp_obs q)), r_payload q, rtp_bytes q) | None => None end',
+              expect, 'RTP MediaPacket.from_bytes', {'data': d.hex()})
+
+
+# ----------------------------------------------------------------------------- every registered PDU class
+def sec_registries(ctx, B):
+    """EVERY registered PDU class of L2CAP signalling, ATT, SMP, SDP, AVDTP and AVRCP through the
+    real classes on every run: construct -> bytes -> parse -> equal fields, parse -> bytes -> same
+    bytes, parsed fields -> fresh object -> same bytes.  Classes whose field specs the generator
+    does not know are listed in the evidence as uncovered."""
+    from translate import c18_registries as R
+    rng = ctx.rng.fork('registries')
+    entries = R.registries()
+    per_class = ctx.n(6, 120)
+    covered, uncovered = {}, {}
+    for e in entries:
+        key = f'{e.proto}:{e.cls.__name__}'
+        done = 0
+        for k in range(per_class):
+            try:
+                kw = R.gen_kwargs(rng, e.cls.__name__, e.fields)
+            except R.Unsupported as ex:
+                uncovered[key] = str(ex)
+                break
+            if e.proto in ('l2cap', 'sdp'):
+                kw['__id'] = rng.choice([0, 1, 255, 0xFFFF if e.proto == 'sdp' else 200])
+            try:
+                bad = R.roundtrip(e, kw)
+            except R.Unsupported as ex:
+                uncovered[key] = str(ex)
+                break
+            done += 1
+            ctx.case((key, k, repr(sorted((n, str(R.canon(v))) for n, v in kw.items()))[:2000]), bool(e.fields))
+            if bad:
+                ctx.violation(bad[0], bad[1], {'kind': 'class', 'proto': e.proto, 'class': e.cls.__name__,
+                                               'seed': ctx.seed, 'tier': ctx.tier, 'index': k})
+        if done:
+            covered[key] = done
+            ctx.count(f'registry.{e.proto}.cases', done)
+    ctx.extra['registry_classes_exercised'] = {p: sorted(k.split(':', 1)[1] for k in covered if k.startswith(p + ':'))
+                                               for p in sorted({e.proto for e in entries})}
+    ctx.extra['registry_classes_uncovered'] = uncovered
+    for p in sorted({e.proto for e in entries}):
+        ctx.count(f'registry.{p}.classes', sum(1 for k in covered if k.startswith(p + ':')))
+    # ---- unknown codes must come back byte for byte (generic fallback objects)
+    from bumble import l2cap, att, smp
+    for _ in range(ctx.n(20, 300)):
+        for proto, parse, reg in (('l2cap', l2cap.L2CAP_Control_Frame.from_bytes, l2cap.L2CAP_Control_Frame.classes),
+                                  ('att', att.ATT_PDU.from_bytes, att.ATT_PDU.pdu_classes),
+                                  ('smp', smp.SMP_Command.from_bytes, smp.SMP_Command.smp_classes)):
+            code = rng.choice([c for c in range(256) if c not in {int(x) for x in reg}])
+            body = rng.bytes(rng.choice([0, 1, 5]))
+            d = bytes([code]) + (bytes([rng.below(256)]) + struct.pack('<H', len(body)) if proto == 'l2cap' else b'') + body
+            ok, p = attempt(parse, d)
+            ctx.case(('unknown', proto, d), True)
+            ctx.count(f'registry.{proto}.unknown-code')
+            if not ok or bytes(p) != d:
+                ctx.violation(f'{proto}:{type(p).__name__ if ok else "parse"}:unknown-code',
+                              f'{proto} PDU with unregistered code {code:#x}: {d.hex()} ' + (f'is rejected ({p})' if not ok else f're-serialises as {bytes(p).hex()}'),
+                              {'kind': 'unknown-code', 'proto': proto, 'data': d.hex()})
+
+
+# ----------------------------------------------------------------------------- translated classes vs the generic field codec
+def sec_registry_model(ctx, B):
+    """the classes of Gen/C18Registry.v (regenerated by this run): Model.CodecsRegistry.pdu_encode /
+    pdu_decode over Model.SpecCodec against the real classes, on values and on truncated PDUs"""
+    from translate import c18_registries as R
+    rng = ctx.rng.fork('registry-model')
+    _, translated, _ = R.translate()
+    dflt = '(mkp 9 0 EmptyString [])'
+    for idx, (e, aspecs) in enumerate(translated):
+        proto = R.PROTO_CODE[e.proto]
+        names = [f[0] for f in e.fields]
+        for k in range(ctx.n(3, 40)):
+            kw = R.gen_kwargs(rng, e.cls.__name__, e.fields)
+            ident = rng.choice([0, 1, 255]) if proto == 0 else rng.choice([0, 1, 0xFFFF]) if proto == 3 else 0
+            kw2 = dict(kw)
+            if proto in (0, 3):
+                kw2['__id'] = ident
+            ok, obj = attempt(e.build, dict(kw2))
+            okb, b = attempt(lambda: bytes(obj)) if ok else (False, None)
+            vs = '[' + '; '.join(R.coq_value(kw[n]) for n in names) + ']'
+            expect = (None, None)
+            if ok and okb:
+                okp, p = attempt(e.parse, b)
+                if okp and type(p) is e.cls:
+                    pid = int(p.identifier) if proto == 0 else int(p.transaction_id) if proto == 3 else 0
+                    expect = (some(list(b)), some((e.code, pid, [R.py_value(getattr(p, n)) for n in names])))
+                else:
+                    expect = (some(list(b)), None)
+            ctx.case(('regmodel', e.cls.__name__, k, vs[:1500]), bool(names))
+            ctx.count(f'registry-model.{e.proto}.value')
+            B.add(f'let c := nth {idx} C18Registry.classes {dflt} in match pdu_encode c {ident} {vs} with '
+                  f'Some b => (Some b, match pdu_decode C18Registry.classes {proto} b with Some (c2, i, vs2) => Some (p_code c2, i, vs2) | None => None end) '
+                  f'| None => (None, None) end', expect, 'field-driven class value', {'class': e.cls.__name__, 'fields': {n: str(R.canon(kw[n]))[:80] for n in names}})
+            # the same PDU cut short: accept / reject decision and the values of the lenient parse
+            if ok and okb and len(b) > 1 and k % 2 == 0:
+                d = b[:rng.below(len(b))]
+                okp, p = attempt(e.parse, d)
+                exp2 = None
+                if okp and type(p) is e.cls:
+                    pid = int(p.identifier) if proto == 0 else int(p.transaction_id) if proto == 3 else 0
+                    try:
+                        exp2 = some((e.code, pid, [R.py_value(getattr(p, n)) for n in names]))
+                    except R.Unsupported:
+                        exp2 = SKIP
+                ctx.case(('regmodel-rx', e.cls.__name__, d), okp)
+                ctx.count(f'registry-model.{e.proto}.truncated')
+                B.add(f'match pdu_decode C18Registry.classes {proto} {cb(d)} with Some (c2, i, vs2) => Some (p_code c2, i, vs2) | None => None end',
+                      exp2, 'field-driven class truncated PDU', {'class': e.cls.__name__, 'data': d.hex()})
+
+
+# ----------------------------------------------------------------------------- parse-driven oracle (no model)
+def _same_value(a, b):
+    """equality of two parsed objects: the class's own __eq__ when it defines one, else the
+    canonical form of its dataclass fields / attributes"""
+    from translate import c18_registries as R
+    if type(a) is not type(b):
+        return False
+    if type(a).__eq__ is not object.__eq__:
+        return a == b
+    try:
+        return R.canon(a) == R.canon(b)
+    except R.Unsupported:
+        return True         # no comparable form: the byte-level checks of the caller still apply
+
+
+def parse_driven(parse, data, exact_length):
+    """v0 = parse(data); b1 = bytes(v0); v1 = parse(b1); b2 = bytes(v1).
+    With a seed of the class's exact length (a well-formed unit up to reserved bits):
+    v1 must equal v0 (value -> bytes -> value) and b2 == b1 (bytes -> value -> bytes).
+    With a seed of unknown well-formedness nothing can be demanded unless the codec itself treats
+    it as canonical (b1 == data): then v1 must equal v0 and b2 == data, whatever was parsed before.
+    Returns ('skip' | 'ok' | 'bad', description)."""
+    ok, v0 = attempt(parse, data)
+    if not ok:
+        return 'skip', None
+    ok, b1 = attempt(lambda: bytes(v0))
+    if not ok:
+        return ('bad', f'{data.hex()} parses but the value does not serialise ({b1})') if exact_length else ('skip', None)
+    if not exact_length and b1 != data:
+        return 'skip', None
+    ok, v1 = attempt(parse, b1)
+    if not ok:
+        return 'bad', f'serialiser output {b1.hex()} (from {data.hex()}) is rejected by the parser ({v1})'
+    if not _same_value(v0, v1):
+        return 'bad', f'{data.hex()} -> {v0!r:.80} -> {b1.hex()} -> a different value {v1!r:.80}'
+    ok, b2 = attempt(lambda: bytes(v1))
+    if not ok or b2 != b1:
+        return 'bad', f'{b1.hex()} parses to a value that serialises as {b2.hex() if ok else b2}'
+    return 'ok', None
+
+
+def avc_value_oracle(kind, args):
+    """construct -> bytes -> Frame.from_bytes -> same class, same attributes, same bytes"""
+    from bumble import avc
+    F = avc.Frame
+    if kind == 'pt-cmd':
+        obj = avc.PassThroughCommandFrame(avc.CommandFrame.CommandType(args[0]), F.SubunitType(args[1]), args[2],
+                                          avc.PassThroughFrame.StateFlag(args[3]), avc.PassThroughFrame.OperationId(args[4]), bytes.fromhex(args[5]))
+        attrs = ['ctype', 'subunit_type', 'subunit_id', 'state_flag', 'operation_id', 'operation_data']
+    elif kind == 'pt-rsp':
+        obj = avc.PassThroughResponseFrame(avc.ResponseFrame.ResponseCode(args[0]), F.SubunitType(args[1]), args[2],
+                                           avc.PassThroughFrame.StateFlag(args[3]), avc.PassThroughFrame.OperationId(args[4]), bytes.fromhex(args[5]))
+        attrs = ['response', 'subunit_type', 'subunit_id', 'state_flag', 'operation_id', 'operation_data']
+    elif kind == 'vd-cmd':
+        obj = avc.VendorDependentCommandFrame(avc.CommandFrame.CommandType(args[0]), F.SubunitType(args[1]), args[2], args[3], bytes.fromhex(args[4]))
+        attrs = ['ctype', 'subunit_type', 'subunit_id', 'company_id', 'vendor_dependent_data']
+    elif kind == 'vd-rsp':
+        obj = avc.VendorDependentResponseFrame(avc.ResponseFrame.ResponseCode(args[0]), F.SubunitType(args[1]), args[2], args[3], bytes.fromhex(args[4]))
+        attrs = ['response', 'subunit_type', 'subunit_id', 'company_id', 'vendor_dependent_data']
+    elif kind == 'cmd':
+        obj = avc.CommandFrame(avc.CommandFrame.CommandType(args[0]), F.SubunitType(args[1]), args[2], F.OperationCode(args[3]), bytes.fromhex(args[4]))
+        attrs = ['ctype', 'subunit_type', 'subunit_id', 'opcode', 'operands']
+    else:
+        obj = avc.ResponseFrame(avc.ResponseFrame.ResponseCode(args[0]), F.SubunitType(args[1]), args[2], F.OperationCode(args[3]), bytes.fromhex(args[4]))
+        attrs = ['response', 'subunit_type', 'subunit_id', 'opcode', 'operands']
+    name = type(obj).__name__
+    b = bytes(obj)
+    ok, p = attempt(F.from_bytes, b)
+    if not ok:
+        return (f'avc:{name}:parse', f'{name}{tuple(args)} -> {b.hex()} is rejected: {p}')
+    if type(p) is not type(obj):
+        return (f'avc:{name}:class', f'{name} -> {b.hex()} parses back as {type(p).__name__}')
+    for a_ in attrs:
+        g, w = getattr(p, a_), getattr(obj, a_)
+        if (bytes(g) if isinstance(g, (bytes, bytearray)) else int(g)) != (bytes(w) if isinstance(w, (bytes, bytearray)) else int(w)):
+            return (f'avc:{name}:{a_}', f'{name}{tuple(args)} -> {b.hex()} -> {a_} = {g!r} instead of {w!r}')
+    if bytes(p) != b:
+        return (f'avc:{name}:bytes', f'{name} {b.hex()} re-serialises as {bytes(p).hex()}')
+    return None
+
+
+def sec_parse_driven(ctx, B):
+    """AVC frames, A2DP codec information, typed advertising-data structures: oracle only.
+    The classes are enumerated from the modules themselves on every run."""
+    from bumble import avc, a2dp, core, data_types
+    import inspect
+    rng = ctx.rng.fork('parse-driven')
+    targets = []
+    for name, cls in sorted(inspect.getmembers(data_types, inspect.isclass)):
+        if cls.__module__ == data_types.__name__ and issubclass(cls, core.DataType) and 'from_bytes' in vars(cls) or \
+                (cls.__module__ == data_types.__name__ and issubclass(cls, core.DataType) and getattr(cls, 'ad_type', None) is not None):
+            if getattr(cls, 'ad_type', None) is None:
+                continue
+            targets.append(('data_types', name, cls.from_bytes, [0, 1, 2, 3, 4, 5, 6, 7, 8, 9, 16, 17, 18, 20, 32], False))
+    for name, n in (('SbcMediaCodecInformation', 4), ('AacMediaCodecInformation', 6)):
+        cls = getattr(a2dp, name, None)
+        if cls is not None:
+            targets.append(('a2dp', name, cls.from_bytes, [n], True))
+    targets.append(('a2dp', 'VendorSpecificMediaCodecInformation', a2dp.VendorSpecificMediaCodecInformation.from_bytes, [6, 7, 10], True))
+    for ct, lens in ((int(a2dp.CodecType.SBC), [4]), (int(a2dp.CodecType.MPEG_2_4_AAC), [6]), (int(a2dp.CodecType.NON_A2DP), [7, 8, 10])):
+        targets.append(('a2dp', f'MediaCodecInformation.create[{ct}]',
+                        lambda d, ct=ct: a2dp.MediaCodecInformation.create(a2dp.CodecType(ct), d), lens, True))
+    targets.append(('a2dp', 'MediaCodecInformation.create[Opus]',
+                    lambda d: a2dp.MediaCodecInformation.create(a2dp.CodecType.NON_A2DP, d), [1], True))
+    exercised, never_accepted = {}, []
+    for proto, name, parse, lens, exact in targets:
+        accepted = 0
+        for k in range(ctx.n(16, 300)):
+            d = rng.bytes(rng.choice(lens))
+            if name.endswith('[Opus]'):
+                d = struct.pack('<IH', 0xE0, 1) + d        # vendor id, codec id, one octet of value
+            verdict, why = parse_driven(parse, d, exact)
+            if verdict == 'skip':
+                continue
+            accepted += 1
+            ctx.case((proto, name, d), True)
+            if verdict == 'bad':
+                ctx.violation(f'{proto}:{name}:roundtrip', why, {'kind': 'parse-driven', 'proto': proto, 'class': name, 'data': d.hex()})
+        if accepted:
+            exercised[f'{proto}:{name}'] = accepted
+            ctx.count(f'oracle-only.{proto}.cases', accepted)
+        else:
+            never_accepted.append(f'{proto}:{name}')
+    # AVC frames: the concrete classes, by value
+    from bumble import avc as _avc
+    accepted = 0
+    ops = [int(m) for m in _avc.PassThroughFrame.OperationId][:6] + [0x7E]
+    subunits = [int(m) for m in _avc.Frame.SubunitType if m != _avc.Frame.SubunitType.EXTENDED]
+    for k in range(ctx.n(120, 3000)):
+        kind = rng.choice(['pt-cmd', 'pt-rsp', 'vd-cmd', 'vd-rsp', 'cmd', 'rsp'])
+        code = rng.choice([0, 1, 2, 3, 4]) if kind.endswith('cmd') else rng.choice([8, 9, 0xA, 0xB, 0xC, 0xD, 0xF])
+        st, sid = rng.choice(subunits), rng.choice([0, 1, 4, 7])
+        if kind.startswith('pt'):
+            args = [code, st, sid, rng.below(2), rng.choice(ops), rng.bytes(rng.choice([0, 0, 1, 2, 5, 255])).hex()]
+        elif kind.startswith('vd'):
+            args = [code, st, sid, rng.choice([0x001958, 0, 0xFFFFFF, rng.below(1 << 24)]), rng.bytes(rng.choice([0, 1, 4, 20, 300])).hex()]
+        else:
+            args = [code, st, sid, rng.choice([0x30, 0x31, 0x02]), rng.bytes(rng.choice([0, 1, 5])).hex()]
+        bad = avc_value_oracle(kind, args)
+        accepted += 1
+        ctx.case(('avc', kind, tuple(args)), True)
+        if bad:
+            ctx.violation(bad[0], bad[1], {'kind': 'avc', 'frame': kind, 'args': args})
+    exercised['avc:Frame'] = accepted
+    ctx.count('oracle-only.avc.cases', accepted)
+    ctx.extra['oracle_only_classes'] = exercised
+    ctx.extra['oracle_only_never_accepted'] = never_accepted
+
+
+# ----------------------------------------------------------------------------- replay / corpus / search
+def folder_items_oracle(n_items, seed):
+    """AVRCP GetFolderItemsResponse with n browseable items: the parsed items serialise as the items sent"""
+    from bumble import avrcp
+    from lib.verif import Rng
+    from translate import c18_registries as R
+    rng = Rng(seed)
+    subs = sorted(avrcp.BrowseableItem.subclasses.items(), key=lambda kv: int(kv[0]))
+    items = []
+    for _ in range(n_items):
+        _, sub = rng.choice(subs)
+        items.append(sub(**R.gen_kwargs(rng, sub.__name__, sub.fields)))
+    rsp = avrcp.GetFolderItemsResponse(status=avrcp.StatusCode(4), uid_counter=1, items=items)
+    b = bytes(rsp)
+    p = avrcp.Response.from_bytes(b, avrcp.PduId.GET_FOLDER_ITEMS)
+    got = [bytes(i) for i in p.items]
+    want = [bytes(i) for i in items]
+    if got != want:
+        k = next(i for i, (g, w) in enumerate(zip(got, want)) if g != w) if len(got) == len(want) else -1
+        return ('avrcp.response:GetFolderItemsResponse:items', f'item {k} of {n_items} re-serialises as {len(got[k]) if k >= 0 else "?"} octets instead of {len(want[k]) if k >= 0 else "?"}')
+    return None
+
+
+def oracle_replay(r):
+    """the property oracle on the implementation for one replay object -> None or (signature, description)"""
+    from bumble import rfcomm, sdp, rtp, avdtp, l2cap, att, smp, core
+    k = r['kind']
+    if k == 'ertm-value':
+        return ecf_oracle_value(r['frame'], tuple(r['fields']))
+    if k == 'ertm-bytes':
+        return ecf_oracle_bytes(bytes.fromhex(r['data']))
+    if k == 'psm':
+        v = r['psm']
+        ser = l2cap.L2CAP_Connection_Request.serialize_psm(v)
+        ok, res = attempt(l2cap.L2CAP_Connection_Request.parse_psm, ser, 0)
+        if psm_spec_valid(v) and not (ok and res == (len(ser), v)):
+            return ('l2cap:L2CAP_Connection_Request:psm', f'PSM {v:#x} -> {ser.hex()} -> {res}')
+        return None
+    if k == 'rfcomm-frame':
+        return rfcomm_frame_oracle(r['type'], r['cr'], r['dlci'], r['pf'], bytes.fromhex(r['info']), r['credits'])
+    if k == 'rfcomm-rx':
+        d = bytes.fromhex(r['data'])
+        ok, p = attempt(rfcomm.RFCOMM_Frame.from_bytes, d)
+        if not ok or bytes(p) != d:
+            return ('rfcomm:RFCOMM_Frame:bytes', f'{d[:6].hex()}.. ' + (f'rejected ({p})' if not ok else f're-serialises as {bytes(p)[:6].hex()}..'))
+        return None
+    if k == 'mcc':
+        v = bytes.fromhex(r['value'])
+        b = rfcomm.RFCOMM_Frame.make_mcc(r['type'], r['cr'], v)
+        ok, res = attempt(rfcomm.RFCOMM_Frame.parse_mcc, b)
+        if not ok or (res[0], bool(res[1]), bytes(res[2])) != (r['type'], bool(r['cr']), v):
+            return (f'rfcomm:MCC:len{len(v)}', f'MCC with {len(v)} value octets does not parse back')
+        return None
+    if k == 'mcc-rx':
+        d = bytes.fromhex(r['data'])
+        ok, res = attempt(rfcomm.RFCOMM_Frame.parse_mcc, d)
+        n = len(d) - (3 if not d[1] & 1 else 2)
+        if not ok or rfcomm.RFCOMM_Frame.make_mcc(res[0], int(res[1]), bytes(res[2])) != d:
+            return (f'rfcomm:MCC:len{n}', f'well-formed MCC {d[:4].hex()}.. ({n} value octets) ' +
+                    ('is rejected' if not ok else f'parses to {len(res[2])} value octets and re-serialises differently'))
+        return None
+    if k == 'sdp-value':
+        return sdp_value_oracle(_tree_unjson(r['tree']))
+    if k == 'sdp-rx':
+        d = bytes.fromhex(r['data'])
+        ok, p = attempt(sdp.DataElement.from_bytes, d)
+        if not ok:
+            return ('sdp:DataElement:parse', f'{d[:16].hex()} rejected ({p})')
+        c = bytes(p)
+        ok2, f = attempt(lambda: bytes(sdp_fresh(p)))
+        if c != d[:len(c)] or not ok2 or f != c:
+            return (f'sdp:DataElement.{p.type.name}:bytes', 'does not re-serialise identically')
+        return None
+    if k == 'uuid-history':
+        return uuid_history_oracle(r['ops'])[1]
+    if k == 'rtp':
+        f = dict(r['fields'])
+        f['payload'] = bytes.fromhex(f['payload'])
+        obj = rtp.MediaPacket(**f)
+        b = bytes(obj)
+        ok, q = attempt(rtp.MediaPacket.from_bytes, b)
+        cc = len(f['csrc_list'])
+        if not ok:
+            return (f'rtp:MediaPacket:csrc{cc}', f'own bytes rejected: {q}')
+        diff = [n for n in f if getattr(q, n) != f[n]]
+        if diff or bytes(q) != b:
+            return (f'rtp:MediaPacket:{",".join(diff) or "bytes"}:csrc{cc}', f'packet with {cc} CSRC entries parses back with different {diff or "bytes"}: csrc {q.csrc_list} instead of {f["csrc_list"]}')
+        return None
+    if k == 'rtp-rx':
+        d = bytes.fromhex(r['data'])
+        ok, q = attempt(rtp.MediaPacket.from_bytes, d)
+        cc = d[0] & 15 if d else 0
+        if len(d) >= 12 + 4 * cc and (not ok or bytes(q) != d):
+            return (f'rtp:MediaPacket:bytes:csrc{cc}', f'{d.hex()} ' + ('is rejected' if not ok else f're-serialises as {bytes(q).hex()}'))
+        return None
+    if k == 'avdtp-header':
+        payload = bytes.fromhex(r['payload'])
+        msg = avdtp.Message()
+        msg.message_type = avdtp.Message.MessageType(r['mt'])
+        msg.signal_identifier = avdtp.SignalIdentifier(r['sig'])
+        msg.payload = payload
+        got = avdtp_receive(avdtp_send(r['tl'], msg, r['mtu']))
+        single = len(payload) + 2 <= r['mtu']
+        if len(got) != 1 or got[0][0] != r['tl'] or int(got[0][1].message_type) != r['mt'] or int(got[0][1].signal_identifier) != r['sig'] \
+                or bytes(got[0][1].payload) != payload:
+            return (f'avdtp:Message:header:{"single" if single else "fragmented"}',
+                    f'tl={r["tl"]} type={r["mt"]} signal={r["sig"]} payload {len(payload)} octets over mtu {r["mtu"]}: received '
+                    f'{[(t, int(m.message_type), int(m.signal_identifier), len(m.payload)) for t, m in got]}')
+        return None
+    if k == 'unknown-code':
+        d = bytes.fromhex(r['data'])
+        parse = {'l2cap': l2cap.L2CAP_Control_Frame.from_bytes, 'att': att.ATT_PDU.from_bytes, 'smp': smp.SMP_Command.from_bytes}[r['proto']]
+        ok, p = attempt(parse, d)
+        if not ok or bytes(p) != d:
+            return (f'{r["proto"]}:{type(p).__name__ if ok else "parse"}:unknown-code',
+                    f'{r["proto"]} PDU with unregistered code {d[0]:#x}: {d.hex()} ' + (f'is rejected ({p})' if not ok else f're-serialises as {bytes(p).hex()}'))
+        return None
+    if k == 'avc':
+        return avc_value_oracle(r['frame'], r['args'])
+    if k == 'folder-items':
+        return folder_items_oracle(r['items'], r['seed'])
+    if k == 'adv-rx':
+        d = bytes.fromhex(r['data'])
+        p = core.AdvertisingData.from_bytes(d)
+        return None if bytes(p) == d else ('core:AdvertisingData:bytes', f'{d.hex()} re-serialises as {bytes(p).hex()}')
+    return ('replay:unsupported', f'replay kind {k}: re-run ./check C18 with the same VERIF_SEED to reproduce')
+
+
+def run_corpus(ctx):
+    import glob
+    import json
+    import os
+    here = os.path.dirname(os.path.dirname(os.path.dirname(os.path.abspath(__file__))))
+    for path in sorted(glob.glob(os.path.join(here, 'corpus', 'C18', '*.json'))):
+        with open(path) as f:
+            obj = json.load(f)
+        r = obj['replay']
+        bad = oracle_replay(r)
+        ctx.case(('corpus', os.path.basename(path)), True)
+        ctx.count('corpus')
+        if bad and bad[0] != 'replay:unsupported':
+            ctx.violation(bad[0], f'{os.path.basename(path)}: {bad[1]}', r)
+
+
+class NullBatch:
+    """oracle-only pass: the model expressions are not evaluated"""
+    preamble = []
+
+    def __init__(self):
+        self.preamble = []
+
+    def add(self, *a, **k):
+        pass
+
+    def run(self):
+        pass
+
+
+SECTIONS = []
+
+
+def search(ctx):
+    """Directed search after a broken proof / correspondence: the oracle-only campaign at the
+    thorough size over several derived seeds (no Coq)."""
+    from lib.verif import Rng
+    tier = ctx.tier
+    rng0 = ctx.rng
+    try:
+        ctx.tier = 'thorough'
+        for k in range(2):
+            ctx.rng = Rng(ctx.seed + 7919 * (k + 1)).fork('C18-search')
+            nb = NullBatch()
+            for sec in SECTIONS:
+                sec(ctx, nb)
+                if ctx.violations:
+                    return
+    finally:
+        ctx.tier = tier
+        ctx.rng = rng0
+
+
+def replay(ctx, obj):
+    r = obj['replay']
+    bad = oracle_replay(r)
+    print('replay:', r)
+    if bad is None:
+        print('oracle: holds')
+    else:
+        print('oracle: VIOLATED', bad[0])
+        print('  ', bad[1])
+    return 0
+
+
 def run(ctx):
+    ctx.rule = ('per codec: boundary-biased values (every length-encoding boundary: RFCOMM 127/128 with and without the credits '
+                'octet, SDP 255/256/65535/65536, PSM 2..6 octets, nesting up to the parser limit +1) and received octets '
+                '(laid out per the specification, then truncated / mutated / non-canonical); UUID: histories of '
+                'from_bytes/from_16_bits/from_32_bits/UUID(str)/parse_uuid operations on the live process registry before each '
+                'round trip; every class of L2CAP_Control_Frame.classes, ATT_PDU.pdu_classes, SMP_Command.smp_classes, '
+                'SDP_PDU.subclasses, avdtp.Message.subclasses, avrcp Command/Response/Event.subclasses built from its field '
+                'specs, serialised, parsed, compared field by field and re-serialised; non-trivial = exercises a variable-length '
+                'form, a flag bit, nesting, a registry history or a class with fields')
+    ctx.assumptions += [
+        'URL data elements are modelled by their UTF-8 octets (str.encode / bytes.decode trusted to be inverse on valid UTF-8)',
+        'UUID names and the DataElement._bytes cache of child elements are not modelled (they take no part in equality or bytes)',
+        'bytes.fromhex is modelled for hexadecimal digits only (strings with whitespace are outside the Address string model)',
+        'field-driven PDU classes (L2CAP signalling, ATT, SMP, SDP PDUs, AVDTP messages), AVRCP/AVC PDUs, A2DP codec information '
+        'and typed AD structures are covered by the oracle on the real classes only, not by a Coq model',
+        'AVDTP / AVCTP fragmentation and reassembly beyond the first packet header is property C19',
+    ]
+    ctx.trusted += ['tools/translate/c18_tables.py (constants regenerated from rfcomm/sdp/core/avdtp/avctp/hci on every run)',
+                    'tools/translate/c18_registries.py (value generators and class round-trip oracle)']
+    run_corpus(ctx)
     B = Batch(ctx)
-    for sec in (sec_ertm, sec_l2cap_misc, sec_rfcomm, sec_sdp):
+    for sec in SECTIONS:
         sec(ctx, B)
-        ctx.log(sec.__name__, 'generated', len(B.items), 'model expressions')
-        B.run()
-        ctx.log(sec.__name__, 'compared')
+    ctx.log('generated', len(B.items), 'model expressions,', ctx.evaluations, 'cases')
+    B.run()
+    ctx.log('compared')
+    by = {}
+    for d in ctx.disagreements:
+        by[d['what']] = by.get(d['what'], 0) + 1
+    ctx.extra['disagreements_by_kind'] = by
+    sig = {}
+    for v in ctx.violations:
+        sig[v['signature']] = sig.get(v['signature'], 0) + 1
+    ctx.extra['violation_signatures'] = sig
+
+
+SECTIONS[:] = [sec_ertm, sec_l2cap_misc, sec_rfcomm, sec_sdp, sec_uuid, sec_address, sec_adv, sec_av, sec_registries,
+               sec_registry_model, sec_parse_driven]
